@@ -315,3 +315,49 @@ def oworker():
         import atexit
         atexit.register(_oworker.close)
     return _oworker
+
+
+def in_fork(fn, *args, timeout=60):
+    """runs fn(*args) in a forked child, so that whatever the code under test caches or mutates while doing so is
+    gone afterwards (cases stay independent of each other and replay alike in a fresh process).  The child's
+    result (picklable), a Violation or a harness error travels back through a pipe."""
+    import pickle
+    import select
+    rfd, wfd = os.pipe()
+    pid = os.fork()
+    if pid == 0:
+        try:
+            os.close(rfd)
+            try:
+                msg = ('ok', fn(*args))
+            except Violation as v:
+                msg = ('violation', v.oracle, v.message, v.sig)
+            except BaseException:
+                msg = ('error', traceback.format_exc())
+            with os.fdopen(wfd, 'wb') as w:
+                pickle.dump(msg, w)
+        finally:
+            os._exit(0)
+    os.close(wfd)
+    chunks = []
+    try:
+        while True:
+            ready, _, _ = select.select([rfd], [], [], timeout)
+            if not ready:
+                os.kill(pid, 9)
+                raise Violation('hang', 'no result from the forked case after %d s' % timeout, sig='hang')
+            b = os.read(rfd, 1 << 16)
+            if not b:
+                break
+            chunks.append(b)
+    finally:
+        os.close(rfd)
+        os.waitpid(pid, 0)
+    if not chunks:
+        raise HarnessError('forked case died without a result')
+    msg = pickle.loads(b''.join(chunks))
+    if msg[0] == 'ok':
+        return msg[1]
+    if msg[0] == 'violation':
+        raise Violation(msg[1], msg[2], msg[3])
+    raise HarnessError('forked case failed:\n' + msg[1])
